@@ -219,3 +219,124 @@ Proof.
   - injection H as <- <-. left. split; [reflexivity|exact Ep].
   - injection H as <- <-. right. split; [reflexivity|]. cbn. rewrite Hc. intros H2. injection H2 as <- <-. split; reflexivity.
 Qed.
+
+(* ---- token machine: the remaining Close/ctx clauses at the strength of the PBF LTS ---- *)
+Lemma xt_stop_permanent : forall l x x' o, xtstep false l x = Some (x', o) ->
+  (xt_ctx x = true -> xt_ctx x' = true) /\ (xt_closed x = true -> xt_closed x' = true).
+Proof.
+  intros l x x' o H. destruct l as [a| |]; cbn in H.
+  - destruct (xt_pc x); try discriminate H. destruct a; try discriminate H; cbn in H.
+    + destruct (is_err (xt_err x)); injection H as <- <-; auto.
+    + injection H as <- <-. auto.
+    + injection H as <- <-. auto.
+    + injection H as <- <-. auto.
+  - destruct (xt_pc x); try discriminate H.
+    + destruct (xt_ctx x) eqn:E; injection H as <- <-; cbn; (split; [intros X; first [reflexivity | discriminate X]|auto]).
+    + destruct (xt_toks x) as [|[v|e|] r]; injection H as <- <-; auto.
+  - injection H as <- <-. auto.
+Qed.
+
+Lemma xt_err_precedence : forall x,
+  (xt_err x <> 0%Z -> xt_err x <> eEOF -> xt_err_value x = xt_err x) /\
+  (xt_err x = eEOF -> xt_err_value x = 0%Z) /\
+  (xt_err x = 0%Z -> xt_closed x = true -> xt_err_value x = eClosed) /\
+  (xt_err x = 0%Z -> xt_closed x = false -> xt_ctx x = true -> xt_err_value x = eCtx) /\
+  (xt_err x = 0%Z -> xt_closed x = false -> xt_ctx x = false -> xt_err_value x = 0%Z).
+Proof.
+  intros x. unfold xt_err_value, is_err. repeat split.
+  - intros H1 H2. apply Z.eqb_neq in H1, H2. rewrite H1, H2. reflexivity.
+  - intros H. rewrite H. reflexivity.
+  - intros H1 H2. rewrite H1, H2. reflexivity.
+  - intros H1 H2 H3. rewrite H1, H2, H3. reflexivity.
+  - intros H1 H2 H3. rewrite H1, H2, H3. reflexivity.
+Qed.
+
+(* the Err method of the machine IS xt_err_value *)
+Lemma xt_err_call : forall x x' o, xt_pc x = XIdle -> xtstep false (XLCall CErr) x = Some (x', o) ->
+  x' = x /\ o = [OErr (xt_err_value x)].
+Proof. intros x x' o Hp H. cbn in H. rewrite Hp in H. injection H as <- <-. split; reflexivity. Qed.
+
+(* a recorded error is never overwritten, in every state reachable under any interleaving *)
+Lemma xt_recorded_error_sticky : forall toks sched l x' o, xt_wf toks = true ->
+  let x := fst (xtrun false sched (xtinit toks)) in
+  xtstep false l x = Some (x', o) -> xt_err x <> 0%Z -> xt_err x' = xt_err x.
+Proof.
+  intros toks sched l x' o Hwf x H Hne.
+  destruct (xt_inv_run toks sched _ Hwf (xt_inv_init toks)) as [HP _]. fold x in HP.
+  assert (xt_pc x = XIdle) as Hi.
+  { destruct (xt_pc x) eqn:E; [reflexivity| |]; exfalso; apply Hne; apply HP; discriminate. }
+  destruct l as [a| |]; cbn in H; rewrite Hi in H; try discriminate H.
+  - destruct a; try discriminate H; cbn in H.
+    + destruct (is_err (xt_err x)); injection H as <- <-; reflexivity.
+    + injection H as <- <-. reflexivity.
+    + injection H as <- <-. reflexivity.
+    + injection H as <- <-. reflexivity.
+  - injection H as <- <-. reflexivity.
+Qed.
+
+(* after a stop that found the scanner idle (Close, cancel by the scanning goroutine, or a cancel
+   from another goroutine that arrived between two Scans), no Scan ever succeeds again, whatever
+   is called and however the steps interleave *)
+Definition xt_stopped (x : xts) : Prop := xt_ctx x = true /\ (xt_pc x = XIdle \/ xt_pc x = XCheck).
+
+Lemma xt_stopped_step : forall l x x' o, xt_stopped x -> xtstep false l x = Some (x', o) ->
+  xt_stopped x' /\ forallb (fun y => negb (scan_true y)) o = true.
+Proof.
+  intros l x x' o [Hc Hp] H. unfold xt_stopped. destruct l as [a| |]; cbn in H.
+  - destruct Hp as [Hp|Hp]; rewrite Hp in H; try discriminate H.
+    destruct a; try discriminate H; cbn in H.
+    + destruct (is_err (xt_err x)); injection H as <- <-; cbn; auto.
+    + injection H as <- <-. cbn. auto.
+    + injection H as <- <-. cbn. auto.
+    + injection H as <- <-. cbn. auto.
+  - destruct Hp as [Hp|Hp]; rewrite Hp in H; try discriminate H.
+    rewrite Hc in H. injection H as <- <-. cbn. auto.
+  - injection H as <- <-. cbn. auto.
+Qed.
+
+Lemma xt_no_true_scan_after_stop : forall sched x, xt_stopped x ->
+  forallb (fun y => negb (scan_true y)) (snd (xtrun false sched x)) = true.
+Proof.
+  induction sched as [|l r IH]; intros x Hx; [reflexivity|]. cbn.
+  destruct (xtstep false l x) as [[x' o]|] eqn:E.
+  - destruct (xt_stopped_step l x x' o Hx E) as [Hx' Ho]. specialize (IH x' Hx').
+    destruct (xtrun false r x') as [x'' o']. cbn in *. rewrite forallb_app, Ho, IH. reflexivity.
+  - apply IH. exact Hx.
+Qed.
+
+Lemma xt_close_stops : forall x x' o a, (a = CCloseCall \/ a = CCancel) ->
+  xtstep false (XLCall a) x = Some (x', o) -> xt_stopped x'.
+Proof.
+  intros x x' o a Ha H. cbn in H. destruct (xt_pc x); try discriminate H.
+  destruct Ha as [-> | ->]; cbn in H; injection H as <- <-; split; cbn; auto.
+Qed.
+
+(* ---- the call-level machine is the token machine with every call run to completion ---- *)
+Lemma xt_idle_steps : forall k t, xt_pc t = XIdle -> xtrun false (repeat XLStep k) t = (t, []).
+Proof. induction k as [|k IH]; intros t H; [reflexivity|]. cbn. rewrite H. apply IH. exact H. Qed.
+
+Definition scan_outcome (toks : list xtok) (t t' : xts) (o : list output) : Prop :=
+  xt_pc t' = XIdle /\ xt_closed t' = xt_closed t /\ xt_ctx t' = xt_ctx t /\
+  match xt_expected toks with
+  | v :: rest => o = [OScan true v] /\ xt_err t' = xt_err t /\ xt_delivered t' = xt_delivered t ++ [v] /\
+                 xt_expected (xt_toks t') = rest /\ xt_final (xt_toks t') = xt_final toks
+  | [] => o = [OScan false 0%Z] /\ xt_err t' = xt_final toks /\ xt_delivered t' = xt_delivered t
+  end.
+
+Lemma xt_scan_loop : forall toks k t, xt_pc t = XCheck -> xt_ctx t = false -> xt_toks t = toks ->
+  2 * length toks + 2 <= k ->
+  scan_outcome toks t (fst (xtrun false (repeat XLStep k) t)) (snd (xtrun false (repeat XLStep k) t)).
+Proof.
+  induction toks as [|x toks IH]; intros k t Hp Hc Ht Hk;
+    destruct t as [tk er cl cx pc dl tc]; cbn in Hp, Hc, Ht; subst;
+    (destruct k as [|[|k]]; [cbn in Hk; lia|cbn in Hk; lia|]).
+  - cbn. rewrite xt_idle_steps by reflexivity. unfold scan_outcome. cbn. repeat split.
+  - destruct x as [v|e|].
+    + cbn. rewrite xt_idle_steps by reflexivity. unfold scan_outcome. cbn. repeat split.
+    + cbn. rewrite xt_idle_steps by reflexivity. unfold scan_outcome. cbn. repeat split.
+    + cbn [repeat xtrun xtstep xt_pc xt_ctx xt_toks xt_err xt_closed xt_delivered xt_tac].
+      cbn [length] in Hk.
+      specialize (IH k (mkXT toks er cl false XCheck dl (tc + 0)) eq_refl eq_refl eq_refl ltac:(lia)).
+      destruct (xtrun false (repeat XLStep k) (mkXT toks er cl false XCheck dl (tc + 0))) as [t' o'].
+      cbn [fst snd app] in *. unfold scan_outcome in *. cbn in *. exact IH.
+Qed.
